@@ -118,13 +118,16 @@ def keep_drop(repo, chk):
     consts = init_constants(init)
     frame = [p for p in fn.params if p != 'self'][0]
     # emission: new_columns[feature_name] = transformed_array
-    emits = [n for n in own_nodes(fn.node) if isinstance(n, ast.Assign) and isinstance(n.targets[0], ast.Subscript) and isinstance(n.targets[0].value, ast.Name) and isinstance(n.value, ast.Name)]
-    emits = [e for e in emits if any(isinstance(c, ast.Call) and isinstance(c.func, ast.Attribute) and c.func.attr == 'astype' for d in own_nodes(fn.node) if isinstance(d, ast.Assign) and isinstance(d.targets[0], ast.Name) and d.targets[0].id == e.value.id for c in ast.walk(d.value))]
+    def _is_str_array(e):
+        if isinstance(e, ast.Name):
+            return any(isinstance(c, ast.Call) and isinstance(c.func, ast.Attribute) and c.func.attr == 'astype' for d in own_nodes(fn.node) if isinstance(d, ast.Assign) and isinstance(d.targets[0], ast.Name) and d.targets[0].id == e.id for c in ast.walk(d.value))
+        return isinstance(e, ast.Call) and isinstance(e.func, ast.Attribute) and e.func.attr == 'astype'
+    emits = [n for n in own_nodes(fn.node) if isinstance(n, ast.Assign) and isinstance(n.targets[0], ast.Subscript) and isinstance(n.targets[0].value, ast.Name) and _is_str_array(n.value)]
     if len(emits) != 1:
         chk.unsure('C12.2', 'R14', fn.site(), 'new_columns[name] = transformed_array', f'{len(emits)} emission sites found')
         return
     em = emits[0]
-    arr = em.value.id
+    arr = em.value.id if isinstance(em.value, ast.Name) else ast.unparse(em.value)
     cfg = CFG(fn.node)
     node = cfg.node_of(em)
     guards = [g for g in cfg.nodes if g.kind == 'branch' and g.test is not None and cfg.dominates(g.id, node.id) and isinstance(g.ast, ast.If)]
@@ -144,6 +147,9 @@ def keep_drop(repo, chk):
     uniq = f'numpy.unique({arr}, return_counts=True)'
     arrdef = [d for d in own_nodes(fn.node) if isinstance(d, ast.Assign) and isinstance(d.targets[0], ast.Name) and d.targets[0].id == arr]
     A = ast.unparse(arrdef[0].value) if len(arrdef) == 1 else arr
+    if not isinstance(em.value, ast.Name):
+        # inline single-definition locals of the emitted expression by hand
+        A = show_src(fn, em.value)
     uniq = f'numpy.unique({A}, return_counts=True)'
     want = {
         'distinct': [E(f'len({uniq}[0]) > 1'), E(f'len(numpy.unique({A})) > 1')],
@@ -524,3 +530,17 @@ def cross_preset(repo, chk, tables):
     chk.require_count('transformer names that parse as expressions', checked, 10)
     if not any(o.oid == 'C12.5b' and o.status == 'violated' for o in chk.obs):
         chk.ok('C12.5b', 'R15', m.relpath, f'{checked} (preset, name) entries whose name parses as an expression', 'formula = the expression in the name', inspected=checked)
+
+
+def show_src(fn, expr):
+    """source text of expr with single-definition locals substituted (for building oracle terms)"""
+    import copy
+    sc = Scope(fn)
+
+    class T(ast.NodeTransformer):
+        def visit_Name(self, node):
+            d = sc.single_def(node.id)
+            if d is not None and node.id != 'X':
+                return T().visit(copy.deepcopy(d))
+            return node
+    return ast.unparse(T().visit(copy.deepcopy(expr)))
